@@ -23,6 +23,11 @@ THEOREMS = ['Otel.C18.' + t for t in (
 HARNESSES = [Harness('s_c18', ['harness/s_c18.cc'],
                      sdk_srcs=sdk_sources('common', 'resource', 'version') +
                      ['sdk/src/trace/provider.cc', 'sdk/src/metrics/provider.cc', 'sdk/src/logs/provider.cc'],
+                     includes=SDK_INCLUDES),
+             # the C19 harness (same definition, same cached binary): its `sc` cases send one span / log record / metric
+             # batch through real providers and report whether the exported item references the provider's resource
+             Harness('s_c19', ['harness/s_c19.cc'],
+                     sdk_srcs=sdk_sources('common', 'resource', 'version', 'metrics', 'trace', 'logs'),
                      includes=SDK_INCLUDES)]
 # sanitizer reports are classified by their first line; symbolizing every report would dominate a run in which many cases abort
 HARNESS_ENV = {'ASAN_OPTIONS': 'detect_leaks=0:abort_on_error=0:exitcode=99:allocator_may_return_null=1:symbolize=0',
@@ -32,13 +37,14 @@ RULE = ('parser strings for bool/uint/duration/float: documented-syntax values, 
         'leading/trailing white space, signs, units, trailing junk, 1..40 digit strings, random non-NUL bytes, unset/empty, each uint/float '
         'string under a clean and a stale ERANGE errno; OTEL_SDK_DISABLED through the three sdk Provider setters; Resource::Merge on random '
         'overlapping typed maps and schema URLs; OTELResourceDetector on generated key=value lists (missing "=", repeated keys, empty items, '
-        'white space); Resource::Create in one forked process per case (the environment part is cached per process). '
+        'white space); Resource::Create in one forked process per case (the environment part is cached per process); resource pointer of exported '
+        'spans / log records / metric batches against the provider\'s resource through real providers. '
         'non-trivial = a set, non-empty value / at least one attribute; distinct = distinct case line')
 TRUSTED = ['strtoull/strtof/isspace/isdigit/strcasecmp of the C library are modelled from their specification and compared on every generated string',
            'std::chrono::system_clock::duration is nanoseconds (static_assert in the harness)',
            'getenv yields NUL-free strings']
 ASSUMPTIONS = ['"C" locale', 'float values are compared only where the decimal is exactly representable in binary32; ERANGE of strtof is an input of the model',
-               '"every span/log/metric references its provider\'s resource" is checked by pointer identity in the C04/C13/C06 harnesses']
+               '"every span/log/metric references its provider\'s resource" is runtime pointer identity: no theorem, checked on real providers by the `sc` cases (C19 harness)']
 WS = b' \t\n\v\f\r'
 I64 = 2**63 - 1
 UNITS = {b'ns': 1, b'us': 10**3, b'ms': 10**6, b's': 10**9, b'm': 60 * 10**9, b'h': 3600 * 10**9, b'': 10**9}
@@ -199,6 +205,13 @@ def oracle(case, out):
         return ('no-undefined-behaviour-or-crash', 'exception thrown to the caller')
     if out.startswith('bad-op') or out.startswith('ERR'):
         return ('bad-case', out)
+    if t[0] == 'sc':
+        # every span, log record and metric batch references its provider's resource (runtime pointer identity)
+        parts = out.split(' ; ')
+        n_req = case.line.count(' g ')
+        if len(parts) != n_req or not all(re.fullmatch(r'i=\d+ out=1 res=1', p) for p in parts):
+            return ('every-span-log-metric-references-its-providers-resource', out)
+        return None
     if t[0] == 'env':
         if t[1] == 'bool':
             v = unenv(t[2])
@@ -287,6 +300,8 @@ def signature(case, out, clause):
 
 def nontrivial(case, out):
     t = case.line.split()
+    if t[0] == 'sc':
+        return ' g ' in case.line
     if t[0] == 'env':
         return t[-1] not in ('unset', '-') if t[1] != 'float' else t[4] not in ('unset', '-')
     return any(x not in ('-', 'unset') for x in t[2:])
@@ -570,9 +585,27 @@ def gen_res(rng, big):
     return out
 
 
+def gen_resource_reference(rng, big):
+    """`sc` cases of the C19 harness, all scopes enabled: spans / log records / metric batches of 1-5 tracers, meters, loggers"""
+    out = []
+    names = [b'lib', b'lib.a', b'x', b'', b'svc']
+    for _ in range(3000 if big else 300):
+        kind = rng.choice('tml')
+        ops = ['d 1']
+        for _g in range(rng.randrange(1, 6)):
+            n, v, s = rng.choice(names), rng.choice([b'', b'1.0']), rng.choice([b'', b'http://x'])
+            if kind == 'l':
+                attrs = rng.choice(['-', f'{hx(b"k")}={hx(b"v")}'])
+                ops.append(f'g {hx(n)} {hx(v)} {hx(s)} {hx(rng.choice([b"logger", b"l2"]))} {attrs}')
+            else:
+                ops.append(f'g {hx(n)} {hx(v)} {hx(s)}')
+        out.append(Case(f'sc {kind} ' + ' ; '.join(ops), 's_c19', ('resource-reference', 'sc-' + kind)))
+    return out
+
+
 def generate(rng, tier):
     big = tier == 'thorough'
-    return gen_env(rng, big) + gen_res(rng, big)
+    return gen_env(rng, big) + gen_res(rng, big) + gen_resource_reference(rng, big)
 
 
 LEVEL_TEXT = ('Lean 4 theorems over executable models of resource.cc / resource_detector.cc / env_variables.cc / disabled.cc: Merge is the '
@@ -585,6 +618,6 @@ LEVEL_NOTE = ('Trusted: Lean kernel; axioms propext/Quot.sound/Classical.choice 
               'functions strtoull/strtof/isspace/isdigit/strcasecmp (modelled from their specification, compared on every generated string). '
               'Partial: float values (decimal -> binary32 rounding) and strtof\'s ERANGE are not modelled - acceptance grammar only, values compared '
               'where exactly representable; the duration syntax includes the leading white space the code documents ("Skip spaces") and rejects 0; '
-              '"every span/log/metric references its provider\'s resource" is runtime pointer identity, checked in the C04/C13/C06 harnesses.')
+              '"every span/log/metric references its provider\'s resource" is runtime pointer identity a model cannot exhibit: checked on real Tracer/Meter/LoggerProviders by the `sc` cases (harness s_c19), no theorem.')
 DESIGN_REF = 'DESIGN.md section 4, C18'
 TECHNIQUE = 'Lean 4 proof + differential correspondence'
